@@ -31,7 +31,7 @@ def main():
         return 0 if ok else 1
     if rp.get("kind") == "probe":
         from pyvc.contract import REGISTRY
-        for m in ("valuemodel", "findkey", "fsarray", "fullscreen", "cursorwindow"):
+        for m in ("valuemodel", "findkey", "fsarray", "fullscreen", "cursorwindow", "atts"):
             importlib.import_module("contracts." + m)
         pm = importlib.import_module("props." + d["property"])
         if hasattr(pm, "attach_probes"):
